@@ -110,6 +110,19 @@ def gen_case(rng, big=False):
         c["ipl_A"] = dec(rng, 0.5, 2.0, 2)
     if model == "hh":
         c["alpha"] = rng.choice(["2", "2.5", "3", "2"])
+    # insertion order of the masses dict handed to the real code (a dict is a mapping: the order carries no meaning)
+    order = list(range(nt))
+    rng.shuffle(order)
+    c["mass_order"] = order
+    # call history on ONE HessianMatrix object: an earlier diagonalize_hessian with other interaction parameters, result discarded
+    if rng.random() < 0.4:
+        if model == "hh":
+            c["prior"] = {"model": "hh", "alpha": rng.choice([a for a in ["2", "2.5", "3"] if a != c["alpha"]])}
+        elif model == "lj":
+            c["prior"] = {"model": "ipl", "ipl_n": rng.choice(["12", "10", "6"]), "ipl_A": dec(rng, 0.5, 2.0, 2)}
+        else:
+            c["prior"] = rng.choice([{"model": "lj"}, {"model": "ipl", "ipl_n": rng.choice([x for x in ["12", "10", "6", "4.5"] if x != c["ipl_n"]]),
+                                                       "ipl_A": dec(rng, 0.5, 2.0, 2)}])
     return c
 
 
@@ -142,19 +155,24 @@ def real_run(c):
     L = np.diag(Hm).copy()
     snap = SingleSnapshot(timestep=0, nparticle=n, particle_type=np.array(c["types"]), positions=pos, boxlength=L,
                           boxbounds=np.column_stack((np.zeros(d), L)), realbounds=None, hmatrix=Hm)
-    masses = {t + 1: float(m) for t, m in enumerate(c["masses"])}
-    if c["model"] == "lj":
-        ip = InteractionParams(model_name=ModelName.lennard_jones)
-    elif c["model"] == "ipl":
-        ip = InteractionParams(model_name=ModelName.inverse_power_law, ipl_n=float(c["ipl_n"]), ipl_A=float(c["ipl_A"]))
-    else:
-        ip = InteractionParams(model_name=ModelName.harmonic_hertz, harmonic_hertz_alpha=float(c["alpha"]))
+    masses = {t + 1: float(c["masses"][t]) for t in c.get("mass_order", range(len(c["masses"])))}
+
+    def mk_ip(q):
+        if q["model"] == "lj":
+            return InteractionParams(model_name=ModelName.lennard_jones)
+        if q["model"] == "ipl":
+            return InteractionParams(model_name=ModelName.inverse_power_law, ipl_n=float(q["ipl_n"]), ipl_A=float(q["ipl_A"]))
+        return InteractionParams(model_name=ModelName.harmonic_hertz, harmonic_hertz_alpha=float(q["alpha"]))
+    ip = mk_ip(c)
     epsilons = np.array([[int(x) for x in row] for row in c["eps"]], dtype=int) if c.get("eps_int") else f(c["eps"])
     h = HessianMatrix(snapshot=snap, masses=masses, epsilons=epsilons, sigmas=f(c["sig"]), r_cuts=f(c["rc"]),
                       ppp=np.array([int(p) for p in c["ppp"]]), shiftpotential=bool(c["shift"]))
     tmp = tempfile.mkdtemp(prefix="c11-")
     try:
         out = os.path.join(tmp, "h")
+        if c.get("prior"):
+            with np.errstate(all="ignore"):
+                h.diagonalize_hessian(interaction_params=mk_ip(c["prior"]), saveevecs=False, savehessian=False, outputfile=os.path.join(tmp, "h0"))
         with np.errstate(all="ignore"):
             h.diagonalize_hessian(interaction_params=ip, saveevecs=True, savehessian=True, outputfile=out)
         M = np.load(out + ".hessianmatrix.npy")
@@ -418,6 +436,8 @@ def run_cases(run, cases, nfd):
         margin, npairs, dn = Fraction(toks[0]), int(toks[1]), int(toks[2])
         run.hist("dim", c["d"]); run.hist("model", c["model"]); run.hist("n", c["n"]); run.hist("species", c["nt"])
         run.hist("cell", c["kind"]); run.hist("mask", "".join(c["ppp"])); run.hist("class", classify(c)); run.hist("epsilons_dtype", "int" if c.get("eps_int") else "float")
+        run.hist("masses_dict_order", "ascending" if c.get("mass_order", []) == sorted(c.get("mass_order", [])) else "permuted")
+        run.hist("history", "second call on the object after " + c["prior"]["model"] if c.get("prior") else "first call")
         if margin < Fraction(1, 10 ** 6):
             skipped += 1
             continue
